@@ -34,10 +34,15 @@ def examples(tier):
 @st.composite
 def strategy(draw, tier="quick"):
     regime = draw(st.sampled_from(["QQ", "QQ", "QQ", "BOOL", "MT", "MP"]))
-    n = draw(st.integers(1, 6))
+    big = draw(st.integers(0, 9)) == 0
+    n = draw(st.integers(8, 10)) if big else draw(st.integers(1, 6))
     names = draw(st.sampled_from([list(range(n)), ["n%d" % i for i in range(n)], [[i, "x"] for i in range(n)]]))
     k = draw(st.integers(0, 12))
     raw = [(draw(st.integers(0, n - 1)), draw(st.integers(0, n - 1))) for _ in range(k)]
+    if big:
+        # a ring through most of the nodes plus the random chords: one large strongly connected component
+        m_ = draw(st.integers(7, n))
+        raw += [(i, (i + 1) % m_) for i in range(m_)]
     by = {}
     for i, j in raw:
         by.setdefault(i, []).append(j)
